@@ -31,9 +31,10 @@ func pfDefaultAns(st *pfStep) {
 func pfBaseCfg() pfCfg {
 	return pfCfg{
 		Upstreams: []pfUpstream{
-			{Service: "app", From: "app.x.io", Domains: []string{"x.io"}, Skip: []string{"^/health$", "^/public/"}},
+			{Service: "app", From: "app.x.io", Domains: []string{"x.io"}, Skip: []string{"^/health$", "^/public/", `\.(css|js)$`}},
 			{Service: "api", From: "api.x.io", Groups: []string{"eng"}, Slug: "okta"},
 			{Service: "wild", From: `^[a-z]+\.apps\.x\.io$`, Rewrite: true, Addrs: []string{"ann@x.io"}, Domains: []string{"y.io"}},
+			{Service: "port", From: "port.x.io:8443", Domains: []string{"x.io"}},
 		},
 		Secure: false, HTTPOnly: true, L: 3600, V: 60, G: 300, DefaultSlug: "idp",
 	}
@@ -116,6 +117,19 @@ func pfPrelude() []pfCase {
 		st("app.x.io", "/oauth2/sign_out", S("app.x.io", nil), nil),
 		st("app.x.io", "/oauth2/sign_out", none, nil),
 		st("app.x.io", "/ping", none, nil),
+		st("app.x.io", "/static/site.css", none, nil),            // unanchored skip pattern: the path ends in .css
+		st("app.x.io", "/admin/users?theme=dark.css", none, nil), // … the query does, the path does not
+		st("app.x.io", "/admin/users?x=/health", none, nil),
+		st("app.x.io", "/admin.css/users", none, nil),
+		st("app.x.io", "/%2Fevil.io/", none, nil), // flow start records the request URI as sent, never a decoded "//evil.io/"
+		st("app.x.io", "/%2F%2Fevil.io", none, nil),
+		st("app.x.io", "/%5Cevil.io/x", none, nil),
+		st("app.x.io", "/a%2Fb?x=%2F", none, nil),
+		st("port.x.io:8443", "/", none, nil), // a route whose `from` carries a port is matched on the whole Host value
+		st("port.x.io:8443", "/", S("port.x.io:8443", nil), nil),
+		st("port.x.io", "/", none, nil),
+		st("port.x.io", "/", S("port.x.io:8443", nil), nil),
+		st("port.x.io:443", "/", none, nil),
 		st("nope.x.io", "/", none, nil),              // 421
 		st("APP.x.io", "/", S("app.x.io", nil), nil), // case variant: no static match
 	}})
@@ -247,10 +261,11 @@ func init() {
 		for _, c := range pfPrelude() {
 			emit(c)
 		}
-		hosts := []string{"app.x.io", "api.x.io", "foo.apps.x.io", "bar.apps.x.io", "nope.x.io", "app.x.io:443", "APP.X.IO"}
+		hosts := []string{"app.x.io", "api.x.io", "foo.apps.x.io", "bar.apps.x.io", "nope.x.io", "app.x.io:443", "APP.X.IO", "port.x.io:8443", "port.x.io"}
 		emails := []string{"ann@x.io", "Ann@X.io", "bob@y.io", "eve@evil.io", "ann@x.io.evil.io", "x@notx.io"}
 		targets := []string{"/", "/a/b?q=1", "/health", "/healthz", "/public/x", "/oauth2/auth", "/favicon.ico", "/robots.txt", "/oauth2/sign_out",
-			"/a//b", "/a/../b", "/%2e%2e/x", "/a%2Fb", "//evil.io/x", "/\\evil.io", "/ping", "/oauth2/v1/certs", "/x?y=//z"}
+			"/a//b", "/a/../b", "/%2e%2e/x", "/a%2Fb", "//evil.io/x", "/\\evil.io", "/ping", "/oauth2/v1/certs", "/x?y=//z",
+			"/x.css", "/x?y=.css", "/x?y=/health", "/%2Fevil.io/", "/%2F%2Fevil.io/x", "/q?a=1;b=2", "/q?p=%zz"}
 		replies := func(okStatus int) pfReply {
 			switch rng.Intn(9) {
 			case 0:
@@ -411,6 +426,18 @@ func init() {
 					}
 					if rng.Intn(12) == 0 {
 						s.Profile = pfReply{Kind: "ok", Groups: []string{"ops"}}
+					}
+					if rng.Intn(8) == 0 {
+						// a failure that is *not* an outage, possibly while a grace period is open
+						bad := []pfReply{{Kind: "status", Status: 401}, {Kind: "status", Status: 403}, {Kind: "status", Status: 500}, {Kind: "malformed"}, {Kind: "transport"}}[rng.Intn(5)]
+						switch rng.Intn(3) {
+						case 0:
+							s.Validate = bad
+						case 1:
+							s.Refresh = bad
+						default:
+							s.Profile = bad
+						}
 					}
 					c.Steps = append(c.Steps, s)
 				}
